@@ -27,6 +27,9 @@ EV_2(e) == (e.kind = "euvat" /\ Acc(e.wr) /\ Acc(e.cr))
                     /\ e.wr.v = (IF StartsWith(e.cr.v, cc) THEN e.cr.v ELSE cc \o e.cr.v)
 (* ---- superset with equal result (vatin over eu.vat; es.nif over dni/nie/cif) ---- *)
 SUP(e) == e.kind = "superset" => (Acc(e.inner) => (Acc(e.outer) /\ (e.same => e.outer.v = e.inner.v)))
+(* ---- thin wrappers that add a fixed affix to another format (no.mva = orgnr + MVA, se.vat = orgnr + 01, ch.vat = uid + MWST, ----*)
+(* ---- fi.ytunnus = alv with a hyphen): accepted exactly when the inner number is                                            ----*)
+IFF(e) == e.kind = "iff" => (Acc(e.outer) <=> Acc(e.inner))
 (* ---- union in order (us.tin, be.ssn, th.tin, ro.cf): e.parts in the wrapper's own order ---- *)
 FirstAcc(parts) == IF \E i \in 1..Len(parts) : Acc(parts[i])
                    THEN parts[CHOOSE i \in 1..Len(parts) : Acc(parts[i]) /\ \A j \in 1..(i - 1) : ~Acc(parts[j])]
